@@ -147,6 +147,15 @@ func (ex *Exec) VerifyFunc(ct *Contract) (res *FuncResult) {
 			rv["result"] = results[0]
 		}
 		// ghost variables of iterators / ranges alive at the return (function-internal clauses may use them)
+		for name, res := range st2.callRes {
+			if tv, ok := res.(*TupleVal); ok {
+				for i, e := range tv.Elems {
+					rv[fmt.Sprintf("res_%s_%d", name, i)] = e
+				}
+			} else {
+				rv["res_"+name+"_0"] = res
+			}
+		}
 		for _, it := range st2.Iters() {
 			rv["it_idx"] = st2.cells[it.IdxID]
 			rv["it_n"] = it.N
@@ -182,6 +191,10 @@ func (ex *Exec) VerifyFunc(ct *Contract) (res *FuncResult) {
 // frameObligations: whatever the contract does not list under modifies is unchanged at return.
 func (ex *Exec) frameObligations(tc *topCtx, fr *frame, st *PState, ct *Contract, vars map[string]Val, site int) {
 	if ct.Flags["noframe"] != "" {
+		return
+	}
+	if ct.Flags["frame_assumed"] != "" {
+		ex.Assumed["frame (modifies clause) of "+ShortName(ct.Func)+" is assumed, not proved"] = true
 		return
 	}
 	fn := tc.fn
